@@ -209,6 +209,64 @@ func checkText(r *vk.Run, c TextCase) *vk.Fail {
 	return nil
 }
 
+// RawCase: a longer text of arbitrary bytes with the fixed tags strewn in, at
+// top level or as the body of a block.
+type RawCase struct {
+	S    vk.Text `json:"s"`
+	Wrap string  `json:"wrap,omitempty"` // "" or a key of textWraps
+}
+
+func checkRaw(r *vk.Run, c RawCase) *vk.Fail {
+	defer r.Watch("raw", c)()
+	inner := strings.ReplaceAll(string(c.S), "\x00", "")
+	src := inner
+	var want, status string
+	if c.Wrap == "" {
+		want, status = refScan(inner, tagVariants...)
+	} else {
+		w := textWraps[c.Wrap]
+		if nb := len(inner) - len(strings.TrimRight(inner, "\\")); nb == 1 {
+			r.Exclude("not-literal-text:escapes-the-closing-tag")
+			return nil
+		}
+		want, status = refScan(inner+w.closer, append([]tagSpec{{w.closer, ""}}, tagVariants...)...)
+		want = strings.Repeat(want, w.reps)
+		src = w.pre + inner + w.closer + w.post
+	}
+	if status != "ok" {
+		r.Exclude("not-literal-text:" + status)
+		return nil
+	}
+	res := vk.Safe(func() (string, error) { return plush.Render(src, plush.NewContextWith(textData())) })
+	scrub(len(res.Out))
+	r.Count(src, "raw-text/"+c.Wrap)
+	r.Sample(func() interface{} { return map[string]interface{}{"template": vk.Text(src), "expected": vk.Text(want)} })
+	if res.Panicked() || res.Err != nil || res.Out != want {
+		return &vk.Fail{Kind: "raw", Case: c, Msg: fmt.Sprintf("template %q gave %s, the statement says %q", src, res, want)}
+	}
+	return nil
+}
+
+var rawFrags = []string{"\\", "\\", "<", "%", ">", "=", "#", "a", "\n", "\\<%", "\\\\", "<\\", "%>", "\"", "`", "é", "\xff", " "}
+
+func genRaw(t *rapid.T) string {
+	n := rapid.IntRange(0, 40).Draw(t, "rn")
+	var sb strings.Builder
+	for i := 0; i < n; i++ {
+		switch k := rapid.IntRange(0, 9).Draw(t, "rk"); {
+		case k == 0:
+			sb.WriteString(tagVariants[rapid.IntRange(0, len(tagVariants)-1).Draw(t, "rt")].Src)
+		case k == 1:
+			if b := rapid.Byte().Draw(t, "rb"); b != 0 {
+				sb.WriteByte(b)
+			}
+		default:
+			sb.WriteString(rapid.SampledFrom(rawFrags).Draw(t, "rf"))
+		}
+	}
+	return sb.String()
+}
+
 // ---- (2) string literals -------------------------------------------------------------------
 
 type StrCase struct {
@@ -459,7 +517,7 @@ func prep(segs []Seg, ctr *int, binder string, depth int) {
 	}
 }
 
-var nesting = map[string]bool{"if": true, "else": true, "branch": true, "for": true, "sfor": true, "sif": true, "sblk": true, "fn": true, "scall": true, "blk": true}
+var nesting = map[string]bool{"if": true, "else": true, "branch": true, "sbranch": true, "for": true, "sfor": true, "sif": true, "sblk": true, "fn": true, "scall": true, "blk": true}
 
 func arrVals(variant, n int) []int {
 	if variant == 0 {
@@ -645,28 +703,34 @@ func (w *walker) walk(segs []Seg, depth int, env map[string]interface{}, out *st
 			p(w.code("=", "if (false) {") + "never" + w.code("", "} else {"))
 			parts = append(parts, w.walk(s.Body, depth-1, env, out)...)
 			p(w.code("", "}"))
-		case "branch": // the body is the taken branch of a chain; the others hold text and a tag as well
+		case "branch", "sbranch": // the body is the taken branch of a chain; the others hold text and a tag as well
 			if depth <= 0 {
 				continue
+			}
+			eq := "="
+			if s.K == "sbranch" {
+				eq = "" // a code tag: the whole chain contributes nothing
 			}
 			never := func(k int) string { return fmt.Sprintf("never%d", k) + w.code("=", "9") }
 			var pre, post string
 			switch s.M % nBranchKinds {
 			case 0:
-				pre = w.code("=", "if (true) {")
+				pre = w.code(eq, "if (true) {")
 				post = w.code("", "} else if (true) {") + never(1) + w.code("", "} else {") + never(2) + w.code("", "}")
 			case 1:
-				pre = w.code("=", "if (false) {") + never(0) + w.code("", "} else if (true) {")
+				pre = w.code(eq, "if (false) {") + never(0) + w.code("", "} else if (true) {")
 				post = w.code("", "} else {") + never(2) + w.code("", "}")
 			case 2:
-				pre = w.code("=", "if (false) {") + never(0) + w.code("", "} else if (false) {") + never(1) + w.code("", "} else if (true) {")
+				pre = w.code(eq, "if (false) {") + never(0) + w.code("", "} else if (false) {") + never(1) + w.code("", "} else if (true) {")
 				post = w.code("", "}")
 			default:
-				pre = w.code("=", "if (false) {") + never(0) + w.code("", "} else if (false) {") + never(1) + w.code("", "} else {")
+				pre = w.code(eq, "if (false) {") + never(0) + w.code("", "} else if (false) {") + never(1) + w.code("", "} else {")
 				post = w.code("", "}")
 			}
 			p(pre)
-			parts = append(parts, w.walk(s.Body, depth-1, env, out)...)
+			if ps := w.walk(s.Body, depth-1, env, out); s.K == "branch" {
+				parts = append(parts, ps...)
+			}
 			p(post)
 		case "for", "sfor":
 			if depth <= 0 {
@@ -796,8 +860,8 @@ func fnEnv(par string, v interface{}) map[string]interface{} {
 func baseData(variant int) map[string]interface{} {
 	d := map[string]interface{}{
 		"hv": template.HTML("<em>H</em>"), "sv": "s<v>", "two": []int{1, 2},
-		"id":   func(x interface{}) interface{} { return x },
-		"blk":  func(h plush.HelperContext) (template.HTML, error) { s, err := h.Block(); return template.HTML(s), err },
+		"id":  func(x interface{}) interface{} { return x },
+		"blk": func(h plush.HelperContext) (template.HTML, error) { s, err := h.Block(); return template.HTML(s), err },
 		"blk2": func(h plush.HelperContext) (template.HTML, error) {
 			s, err := h.Block()
 			if err != nil {
@@ -918,7 +982,7 @@ func genText(t *rapid.T) string {
 	return strings.ReplaceAll(sb.String(), "<%", "< %")
 }
 
-var nestKinds = []string{"if", "else", "branch", "for", "for", "fn", "blk", "sif", "sfor", "sblk", "scall"}
+var nestKinds = []string{"if", "else", "branch", "for", "for", "fn", "blk", "sif", "sbranch", "sfor", "sblk", "scall"}
 
 func genSegs(t *rapid.T, depth int) []Seg {
 	n := rapid.IntRange(1, 6).Draw(t, "nseg")
@@ -972,7 +1036,7 @@ func atoms() []Seg {
 		{K: "if", Body: body()}, {K: "branch", M: 1, Body: body()}, {K: "branch", M: 3, Body: body()},
 		{K: "for", N: 1, Body: body()}, {K: "for", N: 1, M: 2, Body: body()}, {K: "fn", M: 1, Body: body()}, {K: "fn", M: 2, Body: body()},
 		{K: "blk", Body: body()}, {K: "blk", M: 1, Body: body()},
-		{K: "sif", Body: body()}, {K: "sfor", N: 1, Body: body()}, {K: "sblk", Body: body()}, {K: "scall", Body: body()},
+		{K: "sif", Body: body()}, {K: "sbranch", M: 1, Body: body()}, {K: "sfor", N: 1, Body: body()}, {K: "sblk", Body: body()}, {K: "scall", Body: body()},
 	}
 }
 
@@ -1089,12 +1153,16 @@ func (c DeepCase) build() (src, want string, data map[string]interface{}, ok boo
 			fmt.Fprintf(&b, "%d", i%10)
 		}
 	case "long-text":
-		unit := "ab<c\\d%e>f\n\"g\xff<\\%"
+		unit := "ab<c\\d%e>f\n\"g\xff<\\%" + "\\<% not a tag %>" + "h\\\\" + tag + "<\\\\i"
 		for a.Len() < n {
 			a.WriteString(unit)
 		}
-		b.WriteString(a.String() + "1")
 		a.WriteString(tag)
+		w, st := refScan(a.String())
+		if st != "ok" {
+			return "", "", nil, false
+		}
+		b.WriteString(w)
 	case "long-string":
 		unit := "ab<%c%>d#e\n"
 		for b.Len() < n {
@@ -1110,7 +1178,7 @@ func (c DeepCase) build() (src, want string, data map[string]interface{}, ok boo
 func checkDeep(r *vk.Run, c DeepCase) *vk.Fail {
 	defer r.Watch("deep", c)()
 	src, want, data, ok := c.build()
-	if !ok || c.N < 0 || c.N > 1<<22 {
+	if !ok || c.N < 0 || c.N > 1<<24 {
 		return &vk.Fail{Kind: "decode", Msg: "bad deep case"}
 	}
 	res := vk.Safe(func() (string, error) { return plush.Render(src, plush.NewContextWith(data)) })
@@ -1133,7 +1201,7 @@ func checkDeep(r *vk.Run, c DeepCase) *vk.Fail {
 
 // ---- the test -----------------------------------------------------------------------------------
 
-const rule = "(E1) every string of length <= L (quick 4, thorough 6) over {a \\ < % > = # \"} that an independent reference scanner (written from the two escape rules of the statement) classifies as literal text, alone and next to a tag in the frames s+TAG, TAG+s, s+TAG+s2 (7 tails), and directly after the opening / directly before the closing tag of a block: IF{s+TAG}, IF{TAG+s}, ELSE{TAG+s}, ELSEIF{s+TAG+s}, FOR2{s+TAG}, FOR2{TAG+s}, FN{s+TAG+s}, BLK{TAG+s}, SILENT-IF{s+TAG+s}; TAG is an output tag, and for strings of length <= 5 (quick 3) also a code tag, a comment tag and an output tag without blanks; strings with a live opener or with >=3 backslashes before <% are outside the statement and counted under excluded. (E2) every string VALUE of length <= 5 (quick 4) over {a \\ \" ` % > < # newline} spelled as a double-quoted and as a back-quoted literal where expressible, at 12 places (top, if, else-if, for, helper block, helper argument, template-function argument, array element, let, after a silent tag holding the same literal, without blanks, with line breaks); the output must decode to exactly that value. (E3) every ordered pair of values of length <= 2 over {a \\ \" ` %> <% newline #} x the four quote combinations in one template (two tags, two lets in one tag, two arguments of one call). (E4) every comment body of length <= 3 (thorough 4) over {a blank % > < # \" ` \\ = newline -} not containing %>, in 7 frames (alone, before / after a tag, in a block, two in a row, in a loop, between let and use). (E5) every ordered pair (thorough: and triple) of 33 representative segments in 12 kinds of surroundings (top level, if, three else-if chain positions, two loops, function called twice / from a loop, helper block rendered once / twice, silent block). (E6) N blocks nested in each other (if, else, single-iteration for, mixed, with a silent block and a comment innermost, template functions, helper blocks) with text on both sides at every level, N up to 1500 (thorough 5000; functions and helpers up to 400: deeper calls are a documented error); N tags, code tags, comments, blocks, loop iterations in a row (up to 20000), 1 MiB of text and a 1 MiB string. (R) random segment sequences: literal text over an alphabet with <, %, >, \\, =, #, quotes, braces, newlines, other blanks, multi-byte and invalid bytes, delimiter look-alikes; \\<%..%> and \\\\<%..%> forms; output tags of ints, string variables, trusted HTML, string literals of arbitrary contents, the innermost loop variable / function parameter; 36 kinds of silent tags (expressions of every value type incl. HTML-typed, let, assignment, helper calls, several statements in one tag, line comments, blocks inside the tag, silent if / for with text bodies); comment tags with arbitrary contents; at top level and nested to depth 3 in <%= if %>, else, every position of an else-if chain, <%= for %> x n over 9 kinds of iterables (slice, array literal, range, until, Go array, pointer, strings, one-entry map, two-variable form), template functions with a parameter (called once, twice, twice inside one block, from a loop, never, from a code tag first), block helpers rendering their block once or twice, and SILENT blocks (if, for, helper block, function called from a code tag) whose whole arbitrary body must contribute nothing; five spellings of the blanks inside the tag delimiters (one blank, none, newline, tab, CRLF). Every generated template is rendered with Render, then parsed once and executed twice with other values of every variable and again with the first values; every output is compared only after an unrelated longer render (an output must not share memory with engine state). Oracle: the expected part list built alongside (literal / escaped payload / verbatim payload) checked with the entity-decoding matcher. (F, thorough) native fuzzing of the text scanner against the reference scanner. Non-trivial = text with \\, < or %, a string literal with a delimiter/quote/newline, a silent tag inside a block, a comment, or a multi-line construct; distinct by template."
+const rule = "(E1) every string of length <= L (quick 4, thorough 6) over {a \\ < % > = # \"} that an independent reference scanner (written from the two escape rules of the statement) classifies as literal text, alone and next to a tag in the frames s+TAG, TAG+s, s+TAG+s2 (7 tails), and directly after the opening / directly before the closing tag of a block: IF{s+TAG}, IF{TAG+s}, ELSE{TAG+s}, ELSEIF{s+TAG+s}, FOR2{s+TAG}, FOR2{TAG+s}, FN{s+TAG+s}, BLK{TAG+s}, SILENT-IF{s+TAG+s}; TAG is an output tag, and for strings of length <= 5 (quick 3) also a code tag, a comment tag and an output tag without blanks; strings with a live opener or with >=3 backslashes before <% are outside the statement and counted under excluded. (E2) every string VALUE of length <= 5 (quick 4) over {a \\ \" ` % > < # newline} spelled as a double-quoted and as a back-quoted literal where expressible, at 12 places (top, if, else-if, for, helper block, helper argument, template-function argument, array element, let, after a silent tag holding the same literal, without blanks, with line breaks); the output must decode to exactly that value. (E3) every ordered pair of values of length <= 2 over {a \\ \" ` %> <% newline #} x the four quote combinations in one template (two tags, two lets in one tag, two arguments of one call). (E4) every comment body of length <= 3 (thorough 4) over {a blank % > < # \" ` \\ = newline -} not containing %>, in 7 frames (alone, before / after a tag, in a block, two in a row, in a loop, between let and use). (E5) every ordered pair (thorough: and triple) of 34 representative segments in 12 kinds of surroundings (top level, if, three else-if chain positions, two loops, function called twice / from a loop, helper block rendered once / twice, silent block). (E6) N blocks nested in each other (if, else, single-iteration for, mixed, with a silent block and a comment innermost, template functions, helper blocks) with text on both sides at every level, N up to 1500 (thorough 5000; functions and helpers up to 400: deeper calls are a documented error); N tags, code tags, comments, blocks, loop iterations in a row (up to 20000), 1 MiB of text and a 1 MiB string. (R1) texts of up to 40 fragments over {\\ < % > = # quotes newline \\<% \\\\ any byte} with the four fixed tags strewn in, at top level and as the body of every kind of block, against the reference scanner. (R) random segment sequences: literal text over an alphabet with <, %, >, \\, =, #, quotes, braces, newlines, other blanks, multi-byte and invalid bytes, delimiter look-alikes; \\<%..%> and \\\\<%..%> forms; output tags of ints, string variables, trusted HTML, string literals of arbitrary contents, the innermost loop variable / function parameter; 36 kinds of silent tags (expressions of every value type incl. HTML-typed, let, assignment, helper calls, several statements in one tag, line comments, blocks inside the tag, silent if / for with text bodies); comment tags with arbitrary contents; at top level and nested to depth 3 in <%= if %>, else, every position of an else-if chain, <%= for %> x n over 9 kinds of iterables (slice, array literal, range, until, Go array, pointer, strings, one-entry map, two-variable form), template functions with a parameter (called once, twice, twice inside one block, from a loop, never, from a code tag first), block helpers rendering their block once or twice, and SILENT blocks (if, else-if chain, for, helper block, function called from a code tag) whose whole arbitrary body must contribute nothing; five spellings of the blanks inside the tag delimiters (one blank, none, newline, tab, CRLF). Every generated template is rendered with Render, then parsed once and executed twice with other values of every variable and again with the first values; every output is compared only after an unrelated longer render (an output must not share memory with engine state). Oracle: the expected part list built alongside (literal / escaped payload / verbatim payload) checked with the entity-decoding matcher. (F, thorough) native fuzzing of the text scanner against the reference scanner. Non-trivial = text with \\, < or %, a string literal with a delimiter/quote/newline, a silent tag inside a block, a comment, or a multi-line construct; distinct by template."
 
 func setup(t *testing.T) *vk.Run {
 	r := vk.Start(t, "C02", rule,
@@ -1150,6 +1218,16 @@ func setup(t *testing.T) *vk.Run {
 			return &vk.Fail{Kind: "decode", Msg: "bad frame"}
 		}
 		return checkText(r, c)
+	})
+	r.Replayer("raw", func(raw json.RawMessage) *vk.Fail {
+		var c RawCase
+		if f := vk.Decode(raw, &c); f != nil {
+			return f
+		}
+		if _, ok := textWraps[c.Wrap]; !ok && c.Wrap != "" {
+			return &vk.Fail{Kind: "decode", Msg: "bad wrap"}
+		}
+		return checkRaw(r, c)
 	})
 	r.Replayer("strlit", func(raw json.RawMessage) *vk.Fail {
 		var c StrCase
@@ -1249,9 +1327,10 @@ func TestProp(t *testing.T) {
 	total := int64(len(strs)) * slots * nvar
 	r.Subspace(fmt.Sprintf("literal text: %d strings over {a \\ < %% > = # \"} x frames {s, s+TAG, TAG+s, 9 block frames, s+TAG+s2 for 7 tails} x 4 kinds of TAG (the other three for length <= 5)", len(strs)), total, true)
 	r.Parallel(total, 0, func(i int64) {
-		tv := int(i % nvar)
-		f := int((i / nvar) % slots)
-		s := strs[i/nvar/slots]
+		per := int64(len(strs)) * slots
+		tv := int(i / per) // the kind of tag is the slowest index: shards (i mod n) then share every kind evenly
+		f := int(i % slots)
+		s := strs[(i%per)/slots]
 		if tv > 0 && (f == 0 || len(s) > r.Pick(3, 5)) {
 			return
 		}
@@ -1347,7 +1426,10 @@ func TestProp(t *testing.T) {
 	r.Subspace(fmt.Sprintf("depth and width: %d kinds of nesting x %d depths, %d kinds of repetition x 5 lengths", len(deepKinds), len(depths), len(wideKinds)), int64(len(deep)), true)
 	r.Parallel(int64(len(deep)), 0, func(i int64) { r.Check(checkDeep(r, deep[i])) })
 	// R
-	r.Rapid("segments", r.Pick(8000, 80000), func(t *rapid.T) *vk.Fail {
+	r.Rapid("raw text", r.Pick(4000, 30000), func(t *rapid.T) *vk.Fail {
+		return checkRaw(r, RawCase{S: vk.Text(genRaw(t)), Wrap: rapid.SampledFrom([]string{"", "", "if", "for", "elseif", "else", "fn", "blk", "silent"}).Draw(t, "wrap")})
+	})
+	r.Rapid("segments", r.Pick(8000, 40000), func(t *rapid.T) *vk.Fail {
 		return checkSegs(r, SegCase{Segs: genSegs(t, 3), Pad: rapid.SampledFrom([]int{0, 0, 0, 1, 2, 3, 4}).Draw(t, "pad")})
 	})
 	_ = model.QuoteString
